@@ -17,7 +17,7 @@ def run(m, chk):
         "the limits comparison raising ValueError dominates the computation in ImmutableKnotVector.__or__/__and__ (GATE), and the result depends on both operands (DEP-MAY). "
         "That | is the common refinement is not decided (and is false for different degrees, DESIGN §5)."
     )
-    chk.decides = ["PURE", "FRESH", "GATE(limits ⇒ ValueError)", "DEP-MAY both operands", 'BOTH-MULTS (multiplicities of both operands consulted)', 'MULT-KEEP', 'SAME-INTERVAL (the interval guard is an equality, not a one-sided containment)']
+    chk.decides = ["NEG-ZERO-SLICE", "PURE", "FRESH", "GATE(limits ⇒ ValueError)", "DEP-MAY both operands", 'BOTH-MULTS (multiplicities of both operands consulted)', 'MULT-KEEP', 'SAME-INTERVAL (the interval guard is an equality, not a one-sided containment)']
     chk.not_decided = ["U|V is the coarsest common refinement (wrong for different degrees — out of static reach)", "commutativity / idempotence as values"]
     for q in (KV + ".__or__", KV + ".__and__", IKV + ".__or__", IKV + ".__and__"):
         r.pure("PURE", q, ["self", "other"])
@@ -62,3 +62,6 @@ def run(m, chk):
             miss = [p for i, p in enumerate(ctx.fi.params[:2]) if not R.dep_has(have, ("P", i))]
             ok = not miss
             chk.ob("DEP-MAY", f"{q}: result depends on both operands", ok, loc=r.loc(ctx, ctx.cfg.nodes[nid].ast), detail="" if ok else f"{q}: the result does not depend on {', '.join(miss)}", func=q, construct=f"result ignores {', '.join(miss)}")
+    from .extra import neg_zero_slice
+
+    neg_zero_slice(r, chk, [IKV + ".__or__", IKV + ".__and__", IKV + ".knots.getter", IKV + ".limits.getter", IKV + ".__new__", IKV + ".__is_valid"])
